@@ -682,7 +682,7 @@ func trackRun(e *Env) {
 	// client lines: MODE/WHO queries are answered later, at random moments
 	var queries []string
 	clientLines := 0
-	e.LinkPlan = func(l *simnet.Link) { l.ChunkMode = g.Intn(4) }
+	e.LinkPlan = func(l *simnet.Link) { l.ChunkMode = g.Intn(4); l.Window = []int{0, 0, 0, 16, 64, 300}[g.Intn(6)] }
 	e.OnDial = func(l *simnet.Link) {
 		net.l = l
 		e.S.Spawn("server", func() {
